@@ -3,6 +3,7 @@
   Reads operations from stdin, runs them on AL.Impl, prints one line per operation.
 -/
 import AL.Impl.Api
+import Std.Data.HashMap
 open AL AL.Impl AL.Gen
 
 def hexDigit (n : Nat) : Char :=
@@ -30,6 +31,22 @@ def scratchLen : Nat := 1024
 structure DState where
   insts   : Array (Option Inst) := Array.replicate 16 none
   scratch : Inst := createExternal scratchLen (List.replicate scratchLen 0xCC)
+  /-- per-line results observed on the implementation (table mode, see `lfTable`) -/
+  table   : Std.HashMap (Nat × List Nat) (R LineOut) := {}
+  useTable : Bool := false
+
+/-- per-line function taken from a table of results observed on the implementation: the
+    line is the text up to the first CR/LF, which is consumed together with that terminator.
+    Used to tie the parser/API model to the code independently of the encoder. -/
+def lfTable (tbl : Std.HashMap (Nat × List Nat) (R LineOut)) (opt : Nat) (text : Str) : R LineOut × Nat :=
+  let l := text.takeWhile (fun c => !eolCh c)
+  let n := if l.length < text.length then l.length + 1 else l.length
+  match tbl[(opt, l)]? with
+  | some r => (r, n)
+  | none => (.error (.ub "line missing from the implementation table"), n)
+
+def DState.lfo (st : DState) : LineFnOf :=
+  if st.useTable then lfTable st.table else assembleLine
 
 def setOptBits (a : Inst) (opt : Nat) : Inst :=
   let a := applySetter a .mov (opt % 4)
@@ -64,9 +81,18 @@ def step (st : DState) (line : String) : DState × String :=
     let a := setChunkSize a 0
     let a := setOffset a 0
     let (a, r) := asmAssembleStr a (unhex hex)
-    let out := rcOf r ++ " " ++ toString a.offset ++ " " ++ toHex (trimFill a.mem)
+    let start : Nat := match r with
+      | .ok _ => if 0 ≤ a.offset && a.offset ≤ scratchLen then a.offset.toNat else 0
+      | _ => 0
+    let out := rcOf r ++ " " ++ toString a.offset ++ " " ++ toHex (a.mem.take start) ++ " "
+      ++ toHex (trimFill (a.mem.drop start))
       ++ (if a.oob.isEmpty then "" else " GUARD-BAD")
     ({ st with scratch := a }, out)
+  | ["T", opt, hex, rc, bytes] =>
+    let bs := unhex bytes
+    let r : R LineOut := if rc == "0" then (if bs.isEmpty then .ok .skip else .ok (.code bs)) else .error .fail
+    ({ st with table := st.table.insert (opt.toNat!, unhex hex) r }, "ok")
+  | ["Y", v] => ({ st with useTable := v != "0" }, "ok")
   | op :: idS :: args =>
     let id := idS.toNat!
     if id ≥ 16 then (st, "bad-id") else
@@ -90,11 +116,11 @@ def step (st : DState) (line : String) : DState × String :=
       (upd (setChunkSize a ((v % (2 ^ 64 : Int)).toNat)), "ok")
     | "O", [k], some a => (upd (setOffset a (parseInt k)), "ok")
     | "A", [hex], some a =>
-      let (a, r) := asmAssembleStr a (unhex hex)
+      let (a, r) := asmAssembleStrWith st.lfo a (unhex hex)
       (upd a, rcOf r ++ " " ++ toString a.offset)
     | "C", [c, hex, d], some a =>
       let hasDest := d != "0"
-      let (a, r, brks) := asmCountingChunks a (unhex hex) (parseInt c) hasDest
+      let (a, r, brks) := asmCountingChunksWith st.lfo a (unhex hex) (parseInt c) hasDest
       let ds := match brks with
         | some n => toString n
         | none => "-"
